@@ -37,6 +37,11 @@ def main():
             continue
         meta = json.load(open(os.path.join(d, "meta.json")))
         res = {}
+        if not suite:
+            # keep the record of an earlier --suite run (the suite is only re-run on request)
+            for k in ("suite_passes", "suite_line"):
+                if k in meta.get("verified", {}):
+                    res[k] = meta["verified"][k]
         r = run(["/venv/bin/python", os.path.join(d, "demo.py"), "/repo"])
         res["demo_on_unchanged"] = r.returncode
         wt = tempfile.mkdtemp(prefix="verif_seed_", dir="/tmp")
